@@ -87,6 +87,26 @@ def gen_cases(rng, tier):
         nmax = n_evals_upper(m)
         for k0 in range(1, nmax + 1, KSHARD):
           cases.append({"kind": "api", "target": t, "model": m, "k0": k0, "k1": min(nmax, k0 + KSHARD - 1), "first": k0 == 1})
+  # LARGE tables (megabytes of finished blocks before the failing evaluation): anything that flushes by size, by block
+  # count or by elapsed rows only shows there.  One un-faulted streaming observation plus faults at the end, in the middle
+  # and just before the end, per target.
+  for t in PAIR_T + EAM_T:
+    if tier == "quick" and t.startswith("legacy") and not t.endswith(("LAMMPS", "writeSetFL")):
+      continue
+    big = 24000 if "xcel" not in t else 6000
+    if t in PAIR_T:
+      nrb = big - big % 4 if ("DLPOLY" in t or "DL_POLY" in t) else big + 1
+      m = small_pair_model(rng, t.replace("legacy:", "").replace("DL_POLY", "DLPOLY") if t.startswith("legacy:") else t, nrb)
+      a_, b_ = m["pair"][0][0], m["pair"][-1][1]
+      m["pair"] = [[a_, a_, {"k": "form", "name": "bornmayer", "p": [100.0, 0.5]}], [a_, b_ if b_ != a_ else "Zz", {"k": "form", "name": "polynomial", "p": [1.0, 0.5]}],
+                   [b_ if b_ != a_ else "Zz", b_ if b_ != a_ else "Zz", {"k": "form", "name": "constant", "p": [2.5]}]]
+    elif t.startswith("legacyeam:"):
+      if t.endswith("writeFuncFL"):
+        continue
+      m = small_eam_model(rng, LEGACY_EAM_TARGET[t.split(":")[1]], big + 1, big // 2 + 1)
+    else:
+      m = small_eam_model(rng, t, big + 1, big // 2 + 1)
+    cases.append({"kind": "api", "target": t, "model": m, "k0": 1, "k1": 0, "first": True, "big": True})
   ncli = 36 if tier == "quick" else 300
   for i in range(ncli):
     t = (["LAMMPS", "DLPOLY", "GULP", "excel"] + EAM_T)[i % 11]
@@ -168,9 +188,13 @@ def run_api(case, ctx):
   if total == 0:
     ctx.violation("no_evaluations", "no evaluation was observed for %s" % t, what="no_evaluations")
     return
-  # fault at every k in this shard
+  # fault at every k in this shard (large tables: at the end, just before it and in the middle)
   fired = 0
-  for k in range(case["k0"], min(case["k1"], total) + 1):
+  ks = range(case["k0"], min(case["k1"], total) + 1)
+  if case.get("big"):
+    ctx.cls("large_table_%d_bytes" % (1 << (len(plain).bit_length())))
+    ks = sorted(set([total, max(1, total - 3), total // 2 + 1, max(1, (3 * total) // 4)]))
+  for k in ks:
     log2 = monitors.EventLog()
     # the failing evaluation raises one of the exception types a user function can raise (rotating over k, so that
     # every type meets every kind of function over the shards); StopIteration is the one loops can swallow
